@@ -1,4 +1,154 @@
-//! C20: builder validation. Child of `crate::cache::builder`.
+//! C20: the builder's setters. Child of `crate::cache::builder`.
+//!
+//! `finalize()` validates `num_counters`, `max_cost` and `insert_buffer_size` as they are stored in
+//! the builder, so "what the user set is what gets validated and built" rests on every setter
+//! changing exactly its own field - including the five setters that change a type parameter and
+//! therefore re-build the whole struct field by field (the compiler cannot tell two `usize` fields
+//! apart). One step from an ARBITRARY builder state per setter covers every order of calls.
 #![allow(dead_code, unused_imports)]
 use super::*;
+use crate::verif_env::HS;
 use crate::verif_nd::{self as nd, harness, vassert, vcover};
+use crate::TransparentKeyBuilder;
+
+#[derive(Clone, Copy, PartialEq, Eq, Debug)]
+pub(crate) struct Snap {
+    pub metrics: bool,
+    pub ignore_internal_cost: bool,
+    pub num_counters: usize,
+    pub max_cost: i64,
+    pub buffer_items: usize,
+    pub insert_buffer_size: usize,
+    pub cleanup_secs: u64,
+    pub cleanup_nanos: u32,
+    pub has_coster: bool,
+    pub has_validator: bool,
+    pub has_callback: bool,
+    pub has_hasher: bool,
+}
+
+pub(crate) fn snap<K, V, KH, C, U, CB, S>(b: &CacheBuilderCore<K, V, KH, C, U, CB, S>) -> Snap {
+    Snap {
+        metrics: b.metrics,
+        ignore_internal_cost: b.ignore_internal_cost,
+        num_counters: b.num_counters,
+        max_cost: b.max_cost,
+        buffer_items: b.buffer_items,
+        insert_buffer_size: b.insert_buffer_size,
+        cleanup_secs: b.cleanup_duration.as_secs(),
+        cleanup_nanos: b.cleanup_duration.subsec_nanos(),
+        has_coster: b.coster.is_some(),
+        has_validator: b.update_validator.is_some(),
+        has_callback: b.callback.is_some(),
+        has_hasher: b.hasher.is_some(),
+    }
+}
+
+pub(crate) type Core0 = CacheBuilderCore<
+    u64,
+    u64,
+    TransparentKeyBuilder<u64>,
+    DefaultCoster<u64>,
+    DefaultUpdateValidator<u64>,
+    DefaultCacheCallback<u64>,
+    HS,
+>;
+
+/// a second key builder type, so that `set_key_builder` really changes the type parameter
+#[derive(Default)]
+pub(crate) struct OtherKb;
+impl KeyBuilder for OtherKb {
+    type Key = u64;
+    fn hash_index<Q>(&self, _key: &Q) -> u64
+    where
+        Self::Key: core::borrow::Borrow<Q>,
+        Q: core::hash::Hash + Eq + ?Sized,
+    {
+        0
+    }
+}
+
+pub(crate) struct OtherCoster;
+impl Coster for OtherCoster {
+    type Value = u64;
+    fn cost(&self, _val: &u64) -> i64 {
+        1
+    }
+}
+
+/// arbitrary builder state (every scalar arbitrary; the four optional components present, as every
+/// constructor and every setter leaves them)
+pub(crate) fn any_core() -> Core0 {
+    let nanos = nd::any_u32();
+    nd::assume(nanos < 1_000_000_000);
+    CacheBuilderCore {
+        metrics: nd::any_bool(),
+        ignore_internal_cost: nd::any_bool(),
+        num_counters: nd::any_usize(),
+        max_cost: nd::any_i64(),
+        buffer_items: nd::any_usize(),
+        insert_buffer_size: nd::any_usize(),
+        cleanup_duration: Duration::new(nd::any_u64(), nanos),
+        key_to_hash: TransparentKeyBuilder::<u64>::default(),
+        coster: Some(DefaultCoster::default()),
+        update_validator: Some(DefaultUpdateValidator::default()),
+        callback: Some(DefaultCacheCallback::default()),
+        hasher: Some(HS::default()),
+        marker_k: Default::default(),
+        marker_v: Default::default(),
+    }
+}
+
+pub(crate) const N_SETTERS: u8 = 12;
+
+/// what setter number `op` with the arguments (`u`, `i`, `f`, `d`) must do to a snapshot
+pub(crate) fn expect(mut s: Snap, op: u8, u: usize, i: i64, f: bool, d: Duration) -> Snap {
+    match op {
+        0 => s.num_counters = u,
+        1 => s.max_cost = i,
+        2 => s.buffer_items = u,
+        3 => s.insert_buffer_size = u,
+        4 => s.metrics = f,
+        5 => s.ignore_internal_cost = f,
+        6 => {
+            s.cleanup_secs = d.as_secs();
+            s.cleanup_nanos = d.subsec_nanos();
+        }
+        _ => {}
+    }
+    s
+}
+
+harness! {
+    [kani::unwind(3)]
+    fn c20_builder_core_setters() {
+        let b = any_core();
+        let before = snap(&b);
+        let op = nd::any_u8();
+        nd::assume(op < N_SETTERS);
+        let u = nd::any_usize();
+        let i = nd::any_i64();
+        let f = nd::any_bool();
+        let nanos = nd::any_u32();
+        nd::assume(nanos < 1_000_000_000);
+        let d = Duration::new(nd::any_u64(), nanos);
+        let after = match op {
+            0 => snap(&b.set_num_counters(u)),
+            1 => snap(&b.set_max_cost(i)),
+            2 => snap(&b.set_buffer_items(u)),
+            3 => snap(&b.set_buffer_size(u)),
+            4 => snap(&b.set_metrics(f)),
+            5 => snap(&b.set_ignore_internal_cost(f)),
+            6 => snap(&b.set_cleanup_duration(d)),
+            7 => snap(&b.set_key_builder(OtherKb)),
+            8 => snap(&b.set_coster(OtherCoster)),
+            9 => snap(&b.set_update_validator(DefaultUpdateValidator::<u64>::default())),
+            10 => snap(&b.set_callback(DefaultCacheCallback::<u64>::default())),
+            _ => snap(&b.set_hasher(HS::default())),
+        };
+        vassert!(after == expect(before, op, u, i, f, d), "every builder setter changes exactly the parameter it names and carries every other parameter over unchanged");
+        vcover!(op == 3 && before.buffer_items != u, "set_buffer_size with a value different from buffer_items");
+        vcover!(op == 7 && before.buffer_items != before.insert_buffer_size, "set_key_builder with buffer_items != insert buffer size");
+        vcover!(op == 11, "set_hasher");
+    }
+}
